@@ -7,19 +7,27 @@
 // implementation converges to (internal/quiesce: every goroutine blocked).
 //
 // ops:   C kind=<conn|async> exec=<inline|go|pool|park|tp> slots=<k> nconn=<n>
-//        S c j must=<0|1> g=<0|1> from=<-|k>   submit job j on conn c (Execute / MustExecute; timer.Async for
-//                                               kind=async); g=1: the job waits for its gate; from=k: the call
-//                                               is made from inside the body of the running job k
-//        W                                      exec=park: start the oldest parked drainer closure   (model: spawn)
-//        F c j p=<0|1>                          open the gate of the running job j (p=1: it panics)   (model: finish, next)
-//        X c                                    Close the conn; the engine's close handler calls MustExecute(1000+c)
-//        B c n k hold=<0|1>                     burst: k goroutines submit n ungated jobs each, concurrently
-//                                               (hold=1: behind a gated job that is released afterwards; for
-//                                               kind=async n*k goes up to 3000 so that the backing array of the
-//                                               queue grows past 1024 entries and the drainer's shrink branch runs)
-//        H c n k                                hammer: k goroutines call Execute n times each while another
-//                                               goroutine calls Close (free running; repeated by the failing-input
-//                                               search `gen -tier hammer`)
+//
+//	S c j must=<0|1> g=<0|1> from=<-|k>   submit job j on conn c (Execute / MustExecute; timer.Async for
+//	                                       kind=async); g=1: the job waits for its gate; from=k: the call
+//	                                       is made from inside the body of the running job k
+//	W                                      exec=park: start the oldest parked drainer closure   (model: spawn)
+//	F c j p=<0|1>                          open the gate of the running job j (p=1: it panics)   (model: finish, next)
+//	X c                                    Close the conn; the engine's close handler calls MustExecute(1000+c)
+//	B c n k hold=<0|1>                     burst: k goroutines submit n ungated jobs each, concurrently
+//	                                       (hold=1: behind a gated job that is released afterwards; for
+//	                                       kind=async n*k goes up to 3000 so that the backing array of the
+//	                                       queue grows past 1024 entries and the drainer's shrink branch runs)
+//	H c n k                                hammer: k goroutines call Execute n times each while another
+//	                                       goroutine calls Close (free running; repeated by the failing-input
+//	                                       search `gen -tier hammer`)
+//	D c n k                                drain hammer: k goroutines submit n tiny ungated jobs each in a tight
+//	                                       loop, so that the queue drains and refills thousands of times while
+//	                                       submitters keep arriving: the drainer's exit (drained test + reset,
+//	                                       one critical section) races the submitters' head test. Free running;
+//	                                       the result (every accepted job ran, once, per-submitter order, one at
+//	                                       a time, queue empty) does not depend on the interleaving
+//
 // exec appends big=<0|1> to every op of a kind=async case: the queue's backing array shrank during the op
 // (Timer.Async took its `cap > 1024` reset branch) — an input of the model's reset step.
 // Engine.Execute is set through the public field to: inline (f()), go (go f()), pool (a bounded pool of
@@ -206,6 +214,9 @@ func genBacklog(g *lp.Gen) {
 		if g.Chance(1, 2) {
 			g.P("B 0 %d %d hold=%d", 5+g.Intn(40), 2+g.Intn(3), b2i(g.Chance(1, 2)))
 		}
+		if g.Chance(1, 3) {
+			g.P("D 0 %d %d", 1500+g.Intn(3500), 2+g.Intn(4))
+		}
 	}
 }
 
@@ -305,7 +316,11 @@ func gen(g *lp.Gen) {
 			default:
 				idle := !cn.spawned && len(cn.list) == 0
 				if idle && (s.exec == "inline" || s.exec == "go" || s.exec == "tp") {
-					g.P("B %d %d %d hold=%d", c, 5+g.Intn(40), 2+g.Intn(4), b2i(g.Chance(1, 2)))
+					if g.Chance(1, 6) {
+						g.P("D %d %d %d", c, 1000+g.Intn(3000), 2+g.Intn(4))
+					} else {
+						g.P("B %d %d %d hold=%d", c, 5+g.Intn(40), 2+g.Intn(4), b2i(g.Chance(1, 2)))
+					}
 				}
 			}
 		}
@@ -794,6 +809,20 @@ func execStream(e *lp.Exec) {
 			fmt.Fprintf(&s.key, "B%d,", k)
 			s.nontriv = true
 			e.Count("ops", "burst")
+		case "D":
+			if len(pos) < 3 || !connOK(pos[0]) || pos[1] < 1 || pos[2] < 1 || pos[2] > 16 || pos[1]*pos[2] > 40000 {
+				bad()
+				continue
+			}
+			c, n, k := pos[0], pos[1], pos[2]
+			if s.exec == "park" || s.exec == "pool" || s.jobsLen() != strings.Repeat("0,", s.nconn-1)+"0" {
+				rejected()
+				continue
+			}
+			s.drainHammer(e, c, n, k)
+			fmt.Fprintf(&s.key, "D%d,", k)
+			s.nontriv = true
+			e.Count("ops", "drain-hammer")
 		case "H":
 			if len(pos) < 3 || !connOK(pos[0]) || pos[1] < 1 || pos[2] < 1 || pos[1]*pos[2] > 4000 {
 				bad()
@@ -813,6 +842,68 @@ func execStream(e *lp.Exec) {
 		}
 	}
 	finish()
+}
+
+// drainHammer: k goroutines submit n tiny jobs each as fast as they can. The jobs do not go through the per-job
+// bookkeeping of the other ops (that would make the submitters slow and the interesting window — the drainer leaving
+// while a submitter arrives — rare); they check the property themselves with three atomics.
+func (s *sess) drainHammer(e *lp.Exec, c, n, k int) {
+	name := "c05-log"
+	if s.kind == "async" {
+		name = "c19-async-fifo"
+	}
+	var in, overlap, disorder, ran, acc int64
+	last := make([]int64, k) // per submitter: index of its last job that ran, +1
+	var wg sync.WaitGroup
+	startGun := make(chan struct{})
+	for i := 0; i < k; i++ {
+		wg.Add(1)
+		go func(sub int) {
+			defer wg.Done()
+			<-startGun
+			for t := 0; t < n; t++ {
+				t := int64(t)
+				if t%3 == 0 {
+					runtime.Gosched()
+				}
+				body := func() {
+					if atomic.AddInt64(&in, 1) != 1 {
+						atomic.StoreInt64(&overlap, 1)
+					}
+					if !atomic.CompareAndSwapInt64(&last[sub], t, t+1) {
+						atomic.StoreInt64(&disorder, 1)
+					}
+					atomic.AddInt64(&ran, 1)
+					atomic.AddInt64(&in, -1)
+				}
+				if s.kind == "async" {
+					s.tm.Async(body)
+					atomic.AddInt64(&acc, 1)
+				} else if s.conns[c].Execute(body) {
+					atomic.AddInt64(&acc, 1)
+				}
+			}
+		}(i)
+	}
+	close(startGun)
+	wg.Wait()
+	ok := quiesce.Wait(30 * time.Second)
+	e.P("> D %d %d %d big=%d", c, n, k, s.bigNow())
+	if !ok {
+		e.P("timeout: the implementation did not reach a stable state")
+		return
+	}
+	a, r := atomic.LoadInt64(&acc), atomic.LoadInt64(&ran)
+	e.P("acc=%d ran=%d jobs=%s", a, r, s.jobsLen())
+	if r != a {
+		e.Oracle(name, "drain hammer (%d submitters x %d jobs): %d jobs were accepted, %d ran — an accepted job never ran (nothing is running or queued any more)", k, n, a, r)
+	}
+	if atomic.LoadInt64(&overlap) != 0 {
+		e.Oracle(name, "drain hammer (%d submitters x %d jobs): two jobs of one queue ran at the same time", k, n)
+	}
+	if atomic.LoadInt64(&disorder) != 0 {
+		e.Oracle(name, "drain hammer (%d submitters x %d jobs): a submitter's jobs did not run in the order it submitted them, each once", k, n)
+	}
 }
 
 // hammer: k goroutines call Execute n times each while another goroutine closes the conn (free running).
